@@ -57,7 +57,19 @@ fn launch_dump(l: &Launch) -> Value {
     })
 }
 
+/// A panic below the writer (libcnb or its serialiser) is an observation, not the end of the executor.
 pub fn handle(req: &Value) -> Value {
+    let hook = std::panic::take_hook();
+    std::panic::set_hook(Box::new(|_| {}));
+    let r = std::panic::catch_unwind(std::panic::AssertUnwindSafe(|| handle_inner(req)));
+    std::panic::set_hook(hook);
+    match r {
+        Ok(v) => v,
+        Err(e) => json!({"panic": e.downcast_ref::<String>().cloned().or_else(|| e.downcast_ref::<&str>().map(|s| (*s).to_string())).unwrap_or_default()}),
+    }
+}
+
+fn handle_inner(req: &Value) -> Value {
     let path = PathBuf::from(jstr(req, "path"));
     match jstr(req, "op") {
         "launch" => {
